@@ -349,7 +349,7 @@ fn run_case(c: &Combo, script: &[u8], r: &mut Report, verbose: bool) -> Ran {
                 }
             } else if p.hard == 0 {
                 match cmp {
-                    Cmp::Equal => r.outcome("complete:eintr-retried"),
+                    Cmp::Equal => r.outcome("complete-despite-eintr(retried, or nothing was left to deliver)"),
                     Cmp::Lost => {
                         r.outcome("VIOLATION:eintr-bytes-lost");
                         viol(r, "bytes-lost-eintr", "only EINTR was injected (no error to report), the macro completed, yet bytes are missing".into())
@@ -362,7 +362,7 @@ fn run_case(c: &Combo, script: &[u8], r: &mut Report, verbose: bool) -> Ran {
             } else {
                 // EAGAIN/EIO: print.rs documents nothing; the macros discard the error.  Demanded: nothing duplicated or reordered.
                 match cmp {
-                    Cmp::Equal => r.outcome("hard-error:everything-delivered-anyway"),
+                    Cmp::Equal => r.outcome("hard-error:nothing-was-left-to-deliver"),
                     Cmp::Lost => r.outcome(if p.accepted.ends_with(b"\n") && expected.ends_with('\n') && p.accepted.len() < expected.len() {
                         "hard-error:rest-of-text-dropped-silently,newline-still-written"
                     } else {
